@@ -37,6 +37,10 @@ Entries(S0, v, dir, ents) ==
   ELSE LET e == Head(ents) IN
        Entries(IF e[1] \in {".", ".."} THEN S0 ELSE REntry(S0, "readdirplus", e[2], ObjAt(v, Append(dir, e[1])), Append(dir, e[1])), v, dir, Tail(ents))
 
+\* does this forget / batch_forget name more references than the client holds (also when it did so before)?
+OverNow(r) == IF r.op = "forget" THEN Has(r, "ino") /\ r.ino # RootNum /\ r.n > RGet(S.refs, r.ino, 0)
+              ELSE \E i \in DOMAIN r.items : r.items[i][1] # RootNum /\ r.items[i][2] > RGet(S.refs, r.items[i][1], 0)
+
 AfterOp(r) ==
   LET o == OpOf(r) IN
   CASE r.op = "lookup" ->
@@ -86,7 +90,7 @@ Step ==
             IN /\ TRUE = Report(S2, r)
                /\ S' = S2 /\ view' = res[2]
                /\ lastf' = IF r.op \in {"forget", "batch_forget"}
-                           THEN (IF S2.over # S.over THEN "over-forget" ELSE "forget") ELSE ""
+                           THEN (IF OverNow(r) THEN "over-forget" ELSE "forget") ELSE ""
                /\ lop' = [op |-> r.op, p |-> IF Has(r, "p") THEN r.p ELSE <<>>]
                \* directories a readdirplus reply listed "." for, and their parents ("..")
                /\ rdirs' = IF r.op = "rdplus" /\ r.st = 0 THEN rdirs \cup {r.p} \cup (IF r.p # Root THEN {Parent(r.p)} ELSE {}) ELSE rdirs
